@@ -16,6 +16,13 @@ Theorem C16_guard_passes : forall w v t,
 Proof. exact restriction_passes. Qed.
 Print Assumptions C16_guard_passes.
 
+(* second sentence, the case of a trader with no stored record on the vAMM (never traded there, or the record was
+   removed by a whole close or a full liquidation): the one-action refusal never meets them *)
+Theorem C16_fresh_trader_unrestricted : forall w v t,
+  find_position (w_eng w) v t = None -> height (w_env w) <> 0 -> require_not_restriction_mode w v t = Ok tt.
+Proof. exact fresh_trader_unrestricted. Qed.
+Print Assumptions C16_fresh_trader_unrestricted.
+
 Theorem C16_open_is_guarded : forall w t v s m l lim f r,
   e_open_position w t v s m l lim f = Ok r -> require_not_restriction_mode w v t = Ok tt.
 Proof. exact open_restricted. Qed.
